@@ -33,6 +33,8 @@ type Job struct {
 	// HangSeconds: a case running longer than this is killed and re-run alone
 	HangSeconds int
 	Args        []string
+	// Bin, if set, is a worker binary built by Spec.Prepare (the Mode is then only a label).
+	Bin string
 	// GC: "" = collector off below a 512 MiB soft limit (deterministic runs for
 	// harnesses that do not look for memory-safety defects); "on" = default GC.
 	GC string
@@ -46,6 +48,9 @@ type Spec struct {
 	Assume    []string
 	Jobs      func(tier string) []Job
 	StatesAre string
+	// Prepare, if set, builds property-specific worker programs from the current
+	// library tree and returns the jobs that run them (in addition to Jobs).
+	Prepare func(e *Env, tier string) ([]Job, error)
 }
 
 type Known struct {
@@ -590,9 +595,24 @@ func Run(e *Env, spec *Spec) int {
 	os.MkdirAll(filepath.Dir(evPath), 0o755)
 	os.Remove(evPath)
 
-	jobs := spec.Jobs(e.Tier)
+	var jobs []Job
+	if spec.Jobs != nil {
+		jobs = spec.Jobs(e.Tier)
+	}
+	if spec.Prepare != nil {
+		extra, err := spec.Prepare(e, e.Tier)
+		if err != nil {
+			fmt.Fprintln(os.Stderr, err)
+			fmt.Printf("ERROR property=%s preparation failed\n", spec.Prop)
+			return 2
+		}
+		jobs = append(jobs, extra...)
+	}
 	// build
 	for _, j := range jobs {
+		if j.Bin != "" {
+			continue
+		}
 		if _, err := e.Build(j.Mode); err != nil {
 			fmt.Fprintln(os.Stderr, err)
 			fmt.Printf("ERROR property=%s build failed\n", spec.Prop)
@@ -605,7 +625,10 @@ func Run(e *Env, spec *Spec) int {
 	var mu sync.Mutex
 	var runs []*shardRun
 	for _, j := range jobs {
-		bin, _ := e.Build(j.Mode)
+		bin := j.Bin
+		if bin == "" {
+			bin, _ = e.Build(j.Mode)
+		}
 		for s := 0; s < j.Shards; s++ {
 			wg.Add(1)
 			go func(j Job, s int, bin string) {
@@ -822,3 +845,9 @@ func Warm(e *Env) int {
 	wg.Wait()
 	return rc
 }
+
+// GoEnv returns the environment for go invocations (offline, private build cache).
+func GoEnv(e *Env) []string { return goEnv(e) }
+
+// Modfile returns the -modfile argument for a library tree other than /repo ("" for /repo).
+func (e *Env) Modfile() (string, error) { return e.modfile() }
